@@ -266,7 +266,11 @@ Definition add_chain (w : world) (c : list gref) : world :=
          z = number of modules whose id is ModuleId::NULL = 0
      (len counts mode and the 2*(hops+1) gate coordinates; mode only tells the
       harness in which order/orientation to issue the connect calls)
-   query = 1                 Globals::topology()            -> current
+   operations are queries or change the gate graph; each query answers for the graph at that moment:
+         | 10 len mode m0 g0 ..  connect the chain of existing gates (rule as above)     -> 11 wired?
+         | 11 m via              new gate on module m (via 0: Sim::gate / ModuleRef::create_gate, 1: Spawner::gate) -> 12 position+1 | 12 0
+         | 12 m                  from here on the operations run at run time inside module (m mod nmod)'s at_sim_start -> 13 switched?
+   query = 1                 Globals::topology() / Topology::current()  -> current
          | 2 r               Topology::spanned(module r)    -> current
          | 3 s               current.dijkstra(module s)
          | 4                 current.connected()
@@ -371,19 +375,68 @@ Definition exec (w : world) (t : topo) (q : query) : topo * list N :=
   | QFromModules ms => let t' := from_modules w (select_modules (length w) [] ms) in (t', enc_view t')
   end.
 
-Fixpoint exec_all (w : world) (t : topo) (qs : list query) : list N :=
-  match qs with
-  | [] => []
-  | q :: r => let '(t', o) := exec w t q in o ++ exec_all w t' r
+(* ---- histories: wiring operations between the queries ---- *)
+(* The gate graph may change after a view was taken: gates are created and
+   connected while the simulation is built and by modules while it runs.  A
+   script is a history of queries and wiring operations; a view query answers
+   for the graph as it is at that moment (a Topology object, once extracted,
+   is a value and does not follow later changes). *)
+Inductive op :=
+| OQuery (q : query)
+| OConnect (c : list gref)      (* connect the gates of a chain, under the rule of [add_chain] *)
+| ONewGate (m : nat)            (* a new gate at the end of module m's gate list *)
+| ORuntime (m : nat).           (* from here on the operations run inside module m while the simulation runs *)
+
+Definition MAX_GATES : nat := 60.
+Definition can_new_gate (w : world) (m : nat) : bool :=
+  (m <? length w)%nat && (length (gates_of w m) <? MAX_GATES)%nat.
+Definition new_gate (w : world) (m : nat) : world := upd m (fun gs => gs ++ [Standalone]) w.
+
+(* the gate graph after an operation; queries and the phase switch leave it alone *)
+Definition apply_op (w : world) (o : op) : world :=
+  match o with
+  | OConnect c => add_chain w c
+  | ONewGate m => if can_new_gate w m then new_gate w m else w
+  | _ => w
   end.
+
+Record hstate := { h_world : world; h_topo : topo; h_rt : bool }.
+
+Definition step (s : hstate) (o : op) : hstate * list N :=
+  let w := h_world s in
+  match o with
+  | OQuery q => let '(t', out) := exec w (h_topo s) q in
+                ({| h_world := w; h_topo := t'; h_rt := h_rt s |}, out)
+  | OConnect c => ({| h_world := apply_op w o; h_topo := h_topo s; h_rt := h_rt s |}, [11; b2n (valid_chain w c)])
+  | ONewGate m => ({| h_world := apply_op w o; h_topo := h_topo s; h_rt := h_rt s |},
+                   [12; if can_new_gate w m then N.of_nat (S (length (gates_of w m))) else 0])
+  | ORuntime m => if h_rt s || (length w =? 0)%nat then (s, [13; 0])
+                  else ({| h_world := w; h_topo := h_topo s; h_rt := true |}, [13; 1])
+  end.
+
+Fixpoint exec_all (s : hstate) (os : list op) : list N :=
+  match os with
+  | [] => []
+  | o :: r => let '(s', out) := step s o in out ++ exec_all s' r
+  end.
+
+Definition dec_op (l : list N) : option (op * list N) :=
+  match l with
+  | 10 :: r => let '(c, r') := take_lp' r in Some (OConnect (pairs (tl c)), r')
+  | 11 :: m :: via :: r => Some (ONewGate (cl 255 m), r)
+  | 12 :: m :: r => Some (ORuntime (cl 255 m), r)
+  | _ => match dec_query l with Some (q, r) => Some (OQuery q, r) | None => None end
+  end.
+
+Definition init_state (w : world) : hstate := {| h_world := w; h_topo := empty_topo; h_rt := false |}.
 
 Definition run_sim (input : list N) : list N :=
   let '(counts, r1) := take_lp' input in
   match r1 with
-  | [] => exec_all (build_world counts []) empty_topo []
+  | [] => []
   | nch :: r2 =>
       let '(chains, r3) := take_chains (cl 64 nch) r2 in
-      exec_all (build_world counts chains) empty_topo (decode_all dec_query r3)
+      exec_all (init_state (build_world counts chains)) (decode_all dec_op r3)
   end.
 
 (* ModuleId::gen: `MODULE_ID.fetch_add(1)` on a process-global AtomicU16 (wrapping);
